@@ -37,10 +37,17 @@ def _apply(dst: str, edits: List[Tuple[str, str, str]]) -> Optional[str]:
         if s.count(old) != 1:
             return f'edit anchor occurs {s.count(old)} times in {rel}: {old[:60]!r}'
         s = s.replace(old, new)
-        try:
-            compile(s, rel, 'exec')
-        except SyntaxError as e:
-            return f'variant does not compile: {e}'
+        if rel.endswith('.py'):
+            try:
+                compile(s, rel, 'exec')
+            except SyntaxError as e:
+                return f'variant does not compile: {e}'
+        elif rel.endswith('.json'):
+            import json
+            try:
+                json.loads(s)
+            except ValueError as e:
+                return f'variant is not valid JSON: {e}'
         with open(p, 'w', encoding='utf-8') as f:
             f.write(s)
     return None
